@@ -60,7 +60,21 @@ def gen_dag(rng, n):
         d = set()
         if k == 'const':
             r = rng.random()
-            if consts and r < 0.4:
+            if len(consts) >= 2 and r < 0.2:
+                # product / sum / shift of two named constants, with and without blanks around the operator
+                (c1, v1), (c2, v2) = rng.sample(consts, 2)
+                op = rng.choice(['*', '+', '-', '<<'])
+                if op == '-' and v1 < v2:
+                    (c1, v1), (c2, v2) = (c2, v2), (c1, v1)
+                if op == '<<' and v2 > 8:
+                    op = '+'
+                val = {'*': v1 * v2, '+': v1 + v2, '-': v1 - v2, '<<': v1 << v2 if op == '<<' else 0}[op]
+                sp = rng.choice(['', ' '])
+                txt = rng.choice(['%s%s%s%s%s' % (c1, sp, op, sp, c2), '(%s)%s%s%s(%s)' % (c1, sp, op, sp, c2)])
+                sch.add(S.Const(name, val, txt))
+                d.update([c1, c2])
+                consts.append((name, val))
+            elif consts and r < 0.4:
                 c, v = rng.choice(consts)
                 add = rng.randint(0, 3)
                 sch.add(S.Const(name, v + add, '%s + %d' % (c, add)))
